@@ -248,9 +248,10 @@ static void perr(const char* what, size_t r) { g_nerr++; printf("E %s %s\n", wha
 static void sline(int c, int code, long long a, long long b, size_t rc) {
     const ZSTD_CCtx* const x = C[c];
     if (!g_trace || x == NULL) return;
-    printf("S %d %d %lld %lld %d %d %d %d %d %d %d\n", c, code, a, b, ZSTD_isError(rc) ? 0 : 1, x->streamStage != zcss_init,
+    /* round 3: last field = cctx->bufferedPolicy == ZSTDb_buffered (ghost field a_buf of Det/ApiState.v) */
+    printf("S %d %d %lld %lld %d %d %d %d %d %d %d %d\n", c, code, a, b, ZSTD_isError(rc) ? 0 : 1, x->streamStage != zcss_init,
            x->localDict.dict != NULL, x->localDict.cdict != NULL, x->cdict != NULL, x->prefixDict.dict != NULL,
-           x->seqCollector.collectSequences);
+           x->seqCollector.collectSequences, x->bufferedPolicy == ZSTDb_buffered);
 }
 
 /* ---------------- round trip through libzstd ---------------- */
@@ -415,7 +416,7 @@ int main(void) {
             if (k == 1) sline(c, 7, 0, 0, r);
             else if (k == 2) sline(c, 8, 0, 0, r);
             else { /* session_and_parameters = session_only, then parameters (which a frame in progress cannot refuse any more) */
-                printf("S %d 7 0 0 1 -1 -1 -1 -1 -1 -1\n", c); sline(c, 8, 0, 0, r); }
+                printf("S %d 7 0 0 1 -1 -1 -1 -1 -1 -1 -1\n", c); sline(c, 8, 0, 0, r); }
             dump(c, "reset");
         } else if (!strcmp(cmd, "pledge")) {
             int c; ull n; size_t r; if (fscanf(in, "%d %llu", &c, &n) != 2) return 2;
@@ -521,6 +522,59 @@ int main(void) {
             }
             free(ref);
             printf("W %zu %zu %zu %zu %zu %zu %zu %zu %zu %d %s\n", o, l, r0, nerr, ndiff, fcap, fsize, nraw, hsz, (int)C[c]->appliedParams.cParams.strategy, cls);
+        } else if (!strcmp(cmd, "X")) {
+            /* round 3: second-door scenarios on private contexts. "X stablein <mode> <endop> <nbWorkers> <first> <second>":
+             * ZSTD_c_stableInBuffer=1, one deferred ZSTD_e_continue call of <first> bytes from buffer A, then the call that ends the
+             * deferral with mode 0 = another buffer B (pos 0), 1 = buffer A with pos rewound to 0, 2 = contract respected
+             * (A grown to first+second, pos = first).  A and B live in the middle of the arena: a read in front of them stays inside it.
+             * "X copyopen <src bytes>": ZSTD_copyCCtx into a context whose streaming frame is open, then ZSTD_e_end on it. */
+            char what[32];
+            if (fscanf(in, "%31s", what) != 1) return 2;
+            if (!strcmp(what, "stablein")) {
+                int mode, endop, nbw; size_t n1, n2, r1, r2, regen = 0, k; ZSTD_CCtx* x; ZSTD_inBuffer ib; ZSTD_outBuffer ob; BYTE *A, *B; int same = -1;
+                if (fscanf(in, "%d %d %d %zu %zu", &mode, &endop, &nbw, &n1, &n2) != 5) return 2;
+                need_arena(4 * (n1 + n2) + 400000);
+                A = srcArena + n1 + n2 + 4096; B = A + 2 * (n1 + n2) + 8192;
+                for (k = 0; k < n1 + n2; k++) { A[k] = blob[(k * 7) % blobSize]; B[k] = blob[(k * 13 + 5) % blobSize]; }
+                memset(A - n1 - 64, 0xEE, n1 + 64); memset(B - n1 - 64, 0xDD, n1 + 64);
+                x = ZSTD_createCCtx();
+                ZSTD_CCtx_setParameter(x, ZSTD_c_stableInBuffer, 1); ZSTD_CCtx_setParameter(x, ZSTD_c_nbWorkers, nbw);
+                ib.src = A; ib.size = n1; ib.pos = 0; ob.dst = dstArena; ob.size = arenaCap; ob.pos = 0;
+                r1 = ZSTD_compressStream2(x, &ob, &ib, ZSTD_e_continue);
+                if (mode == 0) { ib.src = B; ib.size = n2; ib.pos = 0; }
+                else if (mode == 1) { ib.src = A; ib.size = n1 + n2; ib.pos = 0; }
+                else { ib.src = A; ib.size = n1 + n2; }
+                r2 = ZSTD_compressStream2(x, &ob, &ib, (ZSTD_EndDirective)endop);
+                if (!ZSTD_isError(r2) && endop != 2) r2 = ZSTD_compressStream2(x, &ob, &ib, ZSTD_e_end);
+                if (!ZSTD_isError(r2)) {
+                    BYTE* back = (BYTE*)malloc(4 * (n1 + n2) + 1024); size_t const d = ZSTD_decompress(back, 4 * (n1 + n2) + 1024, dstArena, ob.pos);
+                    regen = ZSTD_isError(d) ? (size_t)-1 : d;
+                    same = (!ZSTD_isError(d) && d == n1 + n2 && memcmp(back, A, n1 + n2) == 0);
+                    free(back);
+                }
+                printf("X stablein %d %d %d %zu %zu %d %d %d %zu %d %d\n", mode, endop, nbw, n1, n2, ZSTD_isError(r1) ? (int)ZSTD_getErrorCode(r1) : 0,
+                       ZSTD_isError(r2) ? (int)ZSTD_getErrorCode(r2) : 0, (int)ZSTD_error_stabilityCondition_notRespected, regen, same, (int)ZSTD_BLOCKSIZE_MAX);
+                ZSTD_freeCCtx(x);
+            } else if (!strcmp(what, "copyopen")) {
+                size_t n, r0, r1, r2, r3, d = 0; int st1, st2; ZSTD_CCtx *x, *s; ZSTD_inBuffer ib; ZSTD_outBuffer ob; int withEnd;
+                if (fscanf(in, "%zu %d", &n, &withEnd) != 2) return 2;
+                need_arena(n + 4096); memcpy(srcArena, blob, n);
+                x = ZSTD_createCCtx(); s = ZSTD_createCCtx();
+                ib.src = srcArena; ib.size = n; ib.pos = 0; ob.dst = dstArena; ob.size = 1; ob.pos = 0;
+                r0 = ZSTD_compressStream2(x, &ob, &ib, ZSTD_e_continue);
+                st1 = x->streamStage != zcss_init;
+                r1 = ZSTD_compressBegin(s, 3); if (!ZSTD_isError(r1)) r1 = ZSTD_copyCCtx(x, s, ZSTD_CONTENTSIZE_UNKNOWN);
+                st2 = x->streamStage != zcss_init;
+                r2 = withEnd ? ZSTD_compressEnd(x, dstArena, arenaCap, srcArena, 1000) : 0;
+                /* the streaming call that follows must start a NEW frame of its own input */
+                ib.src = srcArena; ib.size = 5000; ib.pos = 0; ob.dst = dstArena; ob.size = arenaCap; ob.pos = 0;
+                r3 = ZSTD_compressStream2(x, &ob, &ib, ZSTD_e_end);
+                if (!ZSTD_isError(r3)) { BYTE* back = (BYTE*)malloc(20000); d = ZSTD_decompress(back, 20000, dstArena, ob.pos);
+                    if (!ZSTD_isError(d) && !(d == 5000 && memcmp(back, srcArena, 5000) == 0)) d = (size_t)-2; free(back); }
+                printf("X copyopen %zu %d %d %d %d %d %d %d %zu\n", n, withEnd, ZSTD_isError(r0) ? 1 : 0, st1, ZSTD_isError(r1) ? 1 : 0, st2, ZSTD_isError(r2) ? 1 : 0,
+                       ZSTD_isError(r3) ? (int)ZSTD_getErrorCode(r3) : 0, d);
+                ZSTD_freeCCtx(x); ZSTD_freeCCtx(s);
+            } else return 2;
         } else if (!strcmp(cmd, "F")) {
             int c, fid, hex; size_t off, len, sa, da, r = 0; char api[32]; BYTE *src, *dst; size_t dstCap;
             if (fscanf(in, "%d %d %zu %zu %zu %zu %d %31s", &c, &fid, &off, &len, &sa, &da, &hex, api) != 8) return 2;
@@ -582,6 +636,7 @@ int main(void) {
                 g_cdhint = -1; g_cdptr = NULL;
                 if (!ZSTD_isError(r) && copyTo >= 0) {
                     r = ZSTD_copyCCtx(C[copyTo], C[c], pledge ? len : ZSTD_CONTENTSIZE_UNKNOWN);
+                    sline(copyTo, 14, 0, 0, r);      /* round 3: ACopyInto on the destination */
                     dump(copyTo, "copied");
                     w = copyTo;
                 }
